@@ -9,6 +9,10 @@ statement of its branch once `if c: return a` + REST is read as if/else (any sha
 * otherwise a call that is a whole statement (`H(...)`, `x = H(...)`, `return H(...)`) is replaced by the helper's statements, the
   trailing `return E` becoming `E` / `x = E` / `return E`.
 
+* `if [not] H(...)` binds the helper's result to a fresh flag first; a helper with one loop that returns from inside is expanded with
+  `x = v; break` for each return and the code behind the loop as the loop's else; a generator `PRE; while C: A; yield E; B` is
+  expanded at `for T in G(...)` sites (no `continue` in the for body) as the generator's loop around the for body.
+
 Parameters are substituted by the argument expressions when these are simple (names, attributes, constants) and the parameter is not
 assigned in the helper, else bound with an assignment in front.  The helper's definition stays in the tree (it is analysed as a
 function of its own as well).  The transformation only feeds the analysis; a report on an expanded statement carries the line of the
